@@ -110,3 +110,15 @@ Proof.
 Qed.
 
 End Order.
+
+(* every comparator of the form key x < key y is a strict weak ordering: covers the families
+   used by the correspondence run (less, greater, mod 3, key with tag) *)
+Lemma key_strict_weak : forall {A : Type} (key : A -> Z), strict_weak (fun x y => (key x <? key y)%Z).
+Proof.
+  intros A key. split.
+  - intros a. apply Z.ltb_irrefl.
+  - intros a b c H1 H2. apply Z.ltb_lt in H1, H2. apply Z.ltb_lt. lia.
+  - intros a b c H1 H2. unfold equiv in *. apply andb_prop in H1, H2. destruct H1 as [H1 H1'], H2 as [H2 H2'].
+    apply negb_true_iff, Z.ltb_ge in H1, H1', H2, H2'.
+    apply andb_true_intro. split; apply negb_true_iff, Z.ltb_ge; lia.
+Qed.
